@@ -12,6 +12,7 @@ import (
 	"strconv"
 	"strings"
 	"sync"
+	"syscall"
 	"time"
 )
 
@@ -55,7 +56,8 @@ type Ctx struct {
 	counters        map[string]int
 	sets            map[string]map[string]struct{}
 	MinDistinct     int  // a run that observed fewer distinct non-trivial cases is inconclusive
-	HangIsViolation bool // C17 only: the property claims termination
+	SpinIsViolation bool // C17: 15 minutes of computing on one input of at most 64 KiB is not termination either
+	HangIsViolation bool // C17 (the property claims termination) and C09 (a compiled profile stays usable): a call that neither returns nor computes for the whole watchdog window is blocked
 	NoDebugWorkers  bool // C18: the CLI always passes debug=false, so does the library side of the comparison
 	shard           int  // -1: parent / inline; >=0: this process executes the cases i with i % shards == shard, serially
 	shards          int
@@ -339,6 +341,14 @@ func (c *Ctx) ForEach(n int, f func(i int)) {
 			mine = append(mine, i)
 		}
 	}
+	// every case runs under the watchdog (checks that record their inputs call Begin themselves, with more detail):
+	// a library call that blocks must end the worker, not the whole check
+	g := f
+	f = func(i int) {
+		c.Begin(fmt.Sprintf("case %d", i), nil)
+		g(i)
+		c.End()
+	}
 	revisit := func(i int) {
 		c.Count("cases_revisited_later_in_the_same_process", 1)
 		f(i)
@@ -448,8 +458,12 @@ func (c *Ctx) RunShards() {
 				}
 			}
 			key := "shard-died"
-			if ee, ok := r.err.(*exec.ExitError); ok && ee.ExitCode() == 4 {
+			if ee, ok := r.err.(*exec.ExitError); ok && (ee.ExitCode() == 4 || ee.ExitCode() == 5) {
 				key = "hang"
+			}
+			if ee, ok := r.err.(*exec.ExitError); ok && ee.ExitCode() == 5 && !c.SpinIsViolation {
+				c.Inconclusive(fmt.Sprintf("worker %d/%d: case %v was still computing when the watchdog gave up (%s)", r.k, w, rp["case"], first))
+				continue
 			}
 			if key == "hang" && !c.HangIsViolation {
 				// a wall-clock deadline is not a verdict: only the property that claims termination (C17) turns it into one
@@ -514,6 +528,8 @@ func (c *Ctx) Begin(caseID string, inputs map[string]string) {
 	_ = os.WriteFile(currentFile(c.ID, c.shard), b, 0o644)
 	watchdogMu.Lock()
 	watchdogDeadline = time.Now().Add(CaseWatchdog)
+	watchdogCPU = processCPU()
+	watchdogWindows = 0
 	watchdogMu.Unlock()
 	watchdogOnce.Do(func() {
 		go func() {
@@ -521,14 +537,45 @@ func (c *Ctx) Begin(caseID string, inputs map[string]string) {
 				time.Sleep(time.Second)
 				watchdogMu.Lock()
 				expired := !watchdogDeadline.IsZero() && time.Now().After(watchdogDeadline)
+				var used time.Duration
+				if expired {
+					now := processCPU()
+					used = now - watchdogCPU
+					if used > 10*time.Second && watchdogWindows < 4 {
+						// the process is computing (slow case, loaded machine): not blocked; look again after another window
+						watchdogDeadline = time.Now().Add(CaseWatchdog)
+						watchdogCPU = now
+						watchdogWindows++
+						expired = false
+					}
+				}
+				windows := watchdogWindows
 				watchdogMu.Unlock()
 				if expired {
-					fmt.Fprintf(os.Stderr, "WATCHDOG: case did not return within %s\n", CaseWatchdog)
-					os.Exit(4)
+					if used <= 10*time.Second {
+						fmt.Fprintf(os.Stderr, "WATCHDOG: case did not return within %s and the process used %s of CPU meanwhile: blocked\n", CaseWatchdog, used)
+						os.Exit(4)
+					}
+					fmt.Fprintf(os.Stderr, "WATCHDOG: case still computing after %d windows of %s\n", windows+1, CaseWatchdog)
+					os.Exit(5)
 				}
 			}
 		}()
 	})
+}
+
+var (
+	watchdogCPU     time.Duration
+	watchdogWindows int
+)
+
+// processCPU: user+system CPU time consumed by this process so far.
+func processCPU() time.Duration {
+	var ru syscall.Rusage
+	if err := syscall.Getrusage(syscall.RUSAGE_SELF, &ru); err != nil {
+		return 0
+	}
+	return time.Duration(ru.Utime.Nano() + ru.Stime.Nano())
 }
 
 // End disarms the watchdog.
